@@ -26,7 +26,8 @@ PID = "C15"
 LEVEL = "fault_enumeration"
 RULE = (
     "cases = {new entry, overwrite existing entry, update_from_tree} x {flat, split, non-existing directory} over "
-    "seeded small networks; per case EVERY byte offset 0..len(entry) and before/after EVERY filesystem event of the "
+    "seeded small networks x cache directory on the filesystem of the system temp dir (/var/tmp) or on another one "
+    "(/dev/shm, when present); per case EVERY byte offset 0..len(entry) and before/after EVERY filesystem event of the "
     "writer under the cache directory is a crash point (exhaustive per case); distinct = distinct (case, crash point); "
     "non-trivial = the kill happened strictly inside the write sequence (not before the first or after the last event)"
 )
@@ -81,11 +82,28 @@ def reader_spec(case, d, reader, query=None):
     return spec
 
 
+def cache_roots():
+    """Where the cache directory lives is part of the environment: /var/tmp (same filesystem as the
+    system temp dir here) and, when present, a writable directory on ANOTHER filesystem than the
+    system temp dir (/dev/shm) - a rename from the temp dir into the cache is only atomic on one
+    filesystem."""
+    roots = ["/var/tmp"]
+    try:
+        tmpdev = os.stat(tempfile.gettempdir()).st_dev
+        for cand in ("/dev/shm",):
+            if os.path.isdir(cand) and os.access(cand, os.W_OK) and os.stat(cand).st_dev != tmpdev:
+                roots.append(cand)
+    except OSError:
+        pass
+    return roots
+
+
 class Harness:
-    def __init__(self, rep):
+    def __init__(self, rep, base="/var/tmp"):
         self.rep = rep
         self.srv = crash.CrashServer()
-        self.root = tempfile.mkdtemp(prefix="vf-c15-", dir="/var/tmp")
+        self.base = base
+        self.root = tempfile.mkdtemp(prefix="vf-c15-", dir=base)
 
     def close(self):
         self.srv.close()
@@ -265,13 +283,22 @@ def run_shard(rep, tier, seed, shard, nshards):
         rep.inconclusive_case("crash_shim.so not built (no compiler?)")
         return
     dl = Deadline(budget(tier, 90, 1200))
-    h = Harness(rep)
+    roots = cache_roots()
+    hs = {}
     try:
         ncases = budget(tier, 12, 48)
         for c in range(ncases):
             kind = KINDS[c % len(KINDS)]
             cs = f"{seed}/C15/{c}"  # cases are the same in every shard; crash points are split
             case = make_case(rng_for(cs), cs, kind)
+            base = roots[(c // len(KINDS)) % len(roots)]
+            case["cache_base"] = base
+            if base not in hs:
+                hs[base] = Harness(rep, base)
+            h = hs[base]
+            rep.count("cache_filesystem", f"{base} ({'same filesystem as' if base == roots[0] else 'OTHER filesystem than'} the system temp dir)")
+            if base != roots[0]:
+                rep.mon("cache_on_other_filesystem")
             try:
                 info = h.prepare(case)
             except Exception as e:
@@ -304,12 +331,14 @@ def run_shard(rep, tier, seed, shard, nshards):
             if dl.expired():
                 break
     finally:
-        h.close()
+        for h in hs.values():
+            h.close()
 
 
 def replay(rep, v):
     w = v["witness"]
-    h = Harness(rep)
+    base = w["case"].get("cache_base", "/var/tmp")
+    h = Harness(rep, base if os.path.isdir(base) and os.access(base, os.W_OK) else "/var/tmp")
     try:
         info = h.prepare(w["case"])
         res = h.run_point(w["case"], info, tuple(w["point"]))
